@@ -68,6 +68,8 @@ def _member(t: Term, env: Dict[Term, Tuple[str, bool]]) -> Tuple[str, bool]:
         return ("cofin" if ka == "cofin" and kb == "fin" else "fin", a and not b)
     if t[0] == "op":
         raise Definite(f"operator {t[1]} in {T.show(t)} is not a set operation")
+    if t[0] == "attr" and t[2] == "_set" and t[1] in env and env[t[1]][0] == "fin":
+        raise Definite(f"{T.show(t)} reads the excluded-elements field of a plain frozenset (AttributeError): the isinstance branches are mixed up")
     raise Unknown(f"set expression {T.show(t)} not understood")
 
 
@@ -483,6 +485,21 @@ def _parse_attrs(ctx: Ctx, c: Collector) -> None:
     pr = []
     if not okr:
         pr.append("parse_attrs does not return (measurement_inputs, event_inputs, measurement_outputs, event_outputs)")
+    # every way out returns what was computed from *this* description
+    for r in s.returns[:-1]:
+        if unalias(r.term, s, fi) != ("tuple", (res["mi"], res["ei"], res["mo"], res["eo"])):
+            pr.append(f"parse_attrs also returns {T.show(r.term)[:60]} (line {r.lineno}), which is not computed from this model description: a remembered or defaulted classification "
+                      "(two descriptions that agree on a cache key but differ otherwise -- a list that is absent vs. one that is empty -- get the same result)")
+    # ModelMock takes its four sets from parse_attrs and from nowhere else
+    fields = {"measurement_inputs", "event_inputs", "measurement_outputs", "event_outputs"}
+    for e in ms.of_kind("store"):
+        if e.term[1][0] == "attr" and e.term[1][1] == me and e.term[1][2] in fields:
+            v = unalias(e.term[2], ms, mi)
+            if not (v[0] == "idx" and pa and v[1] == pa[0].term):
+                pr.append(f"ModelMock.__init__ sets {e.term[1][2]} to {T.show(e.term[2])[:40]} (line {e.lineno}) without parse_attrs: a description that takes this path is not classified "
+                          "(and not rejected if it is under-specified)")
+    if pa and pa[0].guards:
+        pr.append("ModelMock.__init__ calls parse_attrs only conditionally")
     if order != want_order:
         pr.append(f"ModelMock.__init__ unpacks the result as {order}")
     if pa and pa[0].term[2][1:] != (("attr", ("attr", me, "_factory"), "type"),):
@@ -499,7 +516,7 @@ def _readers(ctx: Ctx, c: Collector) -> None:
         fi = ctx.func(qn)
         s = ctx.summ(qn)
         me = T.var(fi.params[0])
-        ok = len(s.returns) == 1 and s.returns[0].term in want(me)
+        ok = len(s.returns) == 1 and init_field_value(ctx.prog, fi, s.returns[0].term) in want(me)
         c.check(ok, "readers", qn, label, f"returns {T.show(s.returns[0].term) if s.returns else None}", fi.loc)
     for qn, fld, label in (("mosaik.scenario.Entity.triggered_by", "event_inputs", "triggered_by tests event_inputs"),
                            ("mosaik.scenario.Entity.is_persistent", "measurement_outputs", "is_persistent tests measurement_outputs")):
